@@ -111,6 +111,12 @@ reg('C10', 'Hypothesis stylesheet trees with generator-recorded ground truth × 
     'compared at every position with the record (≈ 10^5 positions quick, ≈ 5·10^6 thorough).',
     'match/inward are two-valued between a value end and its `;` and on recorded offsets (both readings of "contains"); declarations are `;`-terminated as in the quantifier; braces are generated inside strings/comments only.')
 
+reg('C17', 'Hypothesis HTML and CSS document trees with generator-recorded ground truth × every position; oracle = lookup in the record',
+    'The C09/C10 generators (CSS variant with body-end-terminated last declarations, empty values, stray semicolons, nested rules between declarations) feed get_open_tag, select_item_html (next/previous), '
+    'get_css_section(properties=True) and select_item_css (next/previous) at every position; tag/attribute/class-token ranges, section ranges, every property\'s name/value/token/before/after offsets and the '
+    'selected item models are compared exactly with the record (select_item_css inside an item: validity of ranges).',
+    'Boundary positions of sections are two-valued; for a declaration terminated by `}` select_item_css may end the full range at the value end, the brace or after it; values have no embedded comments.')
+
 NOT_APPLICABLE = [
 ]
 
